@@ -140,12 +140,36 @@ def PyNum.asF : PyNum → Int × Nat
 
 def pow2 (e : Nat) : Int := (2 : Int) ^ e
 
+/-- odd part of a non-zero natural number (fuel = the number itself) -/
+def oddPartAux : Nat → Nat → Nat
+  | 0, n => n
+  | fuel + 1, n => if n % 2 == 0 && n != 0 then oddPartAux fuel (n / 2) else n
+
+def oddPart (n : Nat) : Nat := oddPartAux n n
+
+/-- does `float(n)` keep the integer `n`?  Only when its odd part fits in 53 bits: every int up to
+    2^53 does, above that `float()` rounds (2^53 + 1 becomes 2^53). -/
+def intIsDouble (n : Int) : Bool := decide ((oddPart n.natAbs : Int) < two53)
+
+/-- an int operand that a float operation (`int + float`, `int / float`, `math.fmod`) would round
+    before computing: the exact arithmetic of this model does not describe the result -/
+def PyNum.roundedByFloat : PyNum → Bool
+  | .i n => !intIsDouble n
+  | .f _ _ => false
+
+/-- what a mixed sum answers when its int operand is `roundedByFloat`: a dyadic that is not a
+    double, so that `check` / `toVal` (every consumer of a sum goes through one of them) answer
+    `unmodelled` -/
+def PyNum.notADouble : PyNum := .f 1 2000
+
 /-- `a + b`: int when both are ints, else float -/
 def PyNum.add : PyNum → PyNum → PyNum
   | .i a, .i b => .i (a + b)
   | x, y =>
-    let (m1, e1) := x.asF; let (m2, e2) := y.asF
-    .f (m1 * pow2 e2 + m2 * pow2 e1) (e1 + e2)
+    if x.roundedByFloat || y.roundedByFloat then PyNum.notADouble
+    else
+      let (m1, e1) := x.asF; let (m2, e2) := y.asF
+      .f (m1 * pow2 e2 + m2 * pow2 e1) (e1 + e2)
 
 def PyNum.neg : PyNum → PyNum
   | .i a => .i (-a)
@@ -175,13 +199,6 @@ def PyNum.check : PyNum → R PyNum
   | .i n => .ok (.i n)
   | .f m e => do let _ ← mkF m e; pure (.f m e)
 
-/-- odd part of a non-zero natural number (fuel = the number itself) -/
-def oddPartAux : Nat → Nat → Nat
-  | 0, n => n
-  | fuel + 1, n => if n % 2 == 0 && n != 0 then oddPartAux fuel (n / 2) else n
-
-def oddPart (n : Nat) : Nat := oddPartAux n n
-
 /-- number of factors of two -/
 def twoAdicAux : Nat → Nat → Nat
   | 0, _ => 0
@@ -204,10 +221,18 @@ def pyDivide (x y : PyNum) : R Val :=
       let s : Int := if m2 < 0 then -1 else 1
       mkF (s * (m1 / (o : Int)) * pow2 e2) (e1 + k)
 
+/-- the `/` of `$divide`: two ints are divided exactly and the quotient rounded once (`pyDivide`
+    has it whenever it is a double); next to a float operand an int is converted first, and the
+    model has no answer when that conversion rounds -/
+def pyTrueDiv (x y : PyNum) : R Val :=
+  if (x.roundedByFloat || y.roundedByFloat) && (x.isFloat || y.isFloat) && !y.isZero
+  then unmodelled else pyDivide x y
+
 /-- `math.fmod(x, y)` (always float; exact) -/
 def pyFmod (x y : PyNum) : R Val :=
   let (m1, e1) := x.asF; let (m2, e2) := y.asF
   if m2 == 0 then .error .valueErr                        -- math domain error
+  else if x.roundedByFloat || y.roundedByFloat then unmodelled   -- `math.fmod` takes doubles
   else
     let a := m1 * pow2 e2
     let b := m2 * pow2 e1
@@ -517,11 +542,21 @@ def checkAdd : List Val → Option Int → R (Option (Option Int × List PyNum))
       | none => pure none
       | some (d', ns) => pure (some (d', n :: ns))
 
+/-- `datetime.min` / `datetime.max` in microseconds since the epoch (years 1 to 9999) -/
+def dateMinUs : Int := -62135596800000000
+def dateMaxUs : Int := 253402300799999999
+
+/-- a date computed by arithmetic: Python's `datetime` holds the years 1 to 9999 only (beyond,
+    `date + timedelta` and `timedelta(milliseconds=…)` itself raise OverflowError where the
+    server has a date): no answer outside that range -/
+def mkDate (u : Int) : R Val :=
+  if decide (dateMinUs ≤ u) && decide (u ≤ dateMaxUs) then .ok (.date u none) else unmodelled
+
 /-- `date + timedelta(milliseconds=n)`: exact when the sum is a whole number of microseconds -/
 def datePlus (u : Int) (n : PyNum) : R Val :=
   match n with
-  | .i k => .ok (.date (u + k * 1000) none)
-  | .f m e => if (m * 1000) % pow2 e == 0 then .ok (.date (u + m * 1000 / pow2 e) none) else unmodelled
+  | .i k => mkDate (u + k * 1000)
+  | .f m e => if (m * 1000) % pow2 e == 0 then mkDate (u + m * 1000 / pow2 e) else unmodelled
 
 /-- `$add` / `$multiply` on `list(parse_many(values))` (aggregate.py:405-425) -/
 def naryArith (op : String) (vals : List Val) : R Val :=
@@ -549,9 +584,9 @@ def pySubtract (a b : Val) : R Val :=
     if (u - u') % 1000 == 0 then .ok (.int ((u - u') / 1000)) else unmodelled
   | .date u none, y =>
     match toPyNum y with
-    | some (.i n) => .ok (.date (u - n * 1000) none)
+    | some (.i n) => mkDate (u - n * 1000)
     | some (.f m e) =>
-      if (m * 1000) % pow2 e == 0 then .ok (.date (u - m * 1000 / pow2 e) none) else unmodelled
+      if (m * 1000) % pow2 e == 0 then mkDate (u - m * 1000 / pow2 e) else unmodelled
     | none => .error .typeErr
   | x, y =>
     match toPyNum x, toPyNum y with
@@ -565,7 +600,7 @@ def binaryArith (op : String) (a b : Val) : R Val :=
   else
     match toPyNum a, toPyNum b with
     | some x, some y =>
-      if op = "$divide" then pyDivide x y
+      if op = "$divide" then pyTrueDiv x y
       else if op = "$mod" then pyMod x y
       else if op = "$pow" then pyPowT x y
       else if op = "$log" then
@@ -759,10 +794,18 @@ def groupingOnList (op : String) (xs : List Val) : R Val :=
   else if op = "$last" then .ok (xs.getLast?.getD .null)
   else .error .notImpl
 
+/-- the grouping operators as expression operators: `$avg` divides `sum(values)` by the float
+    `len(values)`, so an int sum that `float()` rounds has no answer in this model (as in
+    `pyTrueDiv`) -/
+def groupingInExpr (op : String) (xs : List Val) : R Val :=
+  if op = "$avg" &&
+      (match sumNums (numsOf xs) (.i 0) with | .ok s => s.roundedByFloat | .error _ => false)
+  then unmodelled else groupingOnList op xs
+
 /-- the operator applied to `self.parse(values)` (string argument) -/
 def groupingOnValue (op : String) (v : Val) : R Val :=
   match v with
-  | .arr xs => groupingOnList op xs
+  | .arr xs => groupingInExpr op xs
   | .null =>
     if op = "$first" || op = "$last" then .ok .null      -- `values[0] if values else None`
     else .error .typeErr                                  -- not iterable
